@@ -79,8 +79,9 @@ def obs_to_coq(o):
 
 def limcase_to_coq(c):
     l = c["l"]
-    return "{| lm_id := %d; lm_ce := %s; lm_decoded := %d; lm_limit := %d; lm_obs := %s |}" % (
-        c["id"], coq_string(l.get("ce", "")), int(l["decoded"]), int(c["obs"].get("limit", 0)), obs_to_coq(c["obs"]))
+    return "{| lm_id := %d; lm_ce := %s; lm_decoded := %d; lm_inner := %d; lm_bomb := %s; lm_limit := %d; lm_obs := %s |}" % (
+        c["id"], coq_string(l.get("ce", "")), int(l["decoded"]), int(l.get("inner", 0)), b("/bomb" in c.get("class", "")),
+        int(c["obs"].get("limit", 0)), obs_to_coq(c["obs"]))
 
 
 FRAME_TABLE = {"datadogCFRequestDec": "samples_v3", "elasticBulkDec": "samples_v3", "zipkinNDDecoderV2": "tempo_traces"}
@@ -204,6 +205,7 @@ def run_translator(ck):
            "Definition LSW := Eval vm_compute in (ce_all_limited gen_content_encodings gen_ce_body_wraps, gen_ce_body_wraps).\nPrint LSW.\n"
            "Definition DPM := Eval vm_compute in (dprog_eqb gen_prom_decode_prog prom_prog, dprog_eqb gen_lokiproto_decode_prog lokiproto_prog).\nPrint DPM.\n"
            "Definition DFP := Eval vm_compute in (failing_probes gen_prom_decode_prog, failing_probes gen_lokiproto_decode_prog).\nPrint DFP.\n"
+           "Definition PPG := Eval vm_compute in strs_eqb' gen_pprof_parse_guard pprof_parse_guard_model.\nPrint PPG.\n"
            "Definition PRF := Eval vm_compute in (profile_ok gen_on_profile_prog gen_profile_fields gen_profile_cols gen_profile_cols_unknown, "
            "profile_request_cols gen_on_profile_prog gen_profile_cols 1).\nPrint PRF.\n")
     txt = txt.replace("model.IngestPipe gen.GenGoroutinesWriter", "model.IngestPipe model.IngestFraming model.IngestShared gen.GenGoroutinesWriter")
@@ -292,6 +294,8 @@ def run_translator(ck):
     ck.obligation("onProfile fills every slice field of ProfileData by exactly one statement (eight per row, five per request), sends and resets under the size test; "
                   "every column of the profile insert service reads one field the way it is filled (on_profile_fills_every_column_once)", val("PRF").startswith("(true"),
                   "(profile_ok, what a one-row request appends to the 13 columns) = " + val("PRF"))
+    ck.obligation("golangPprof.go Parse inflates a gzip-compressed profile itself through helpers.LimitDecoded + io.ReadAll and refuses a second gzip layer before "
+                  "the profile parser sees it (profile_gzip_layer_in_source)", val("PPG") == "true", "gen_pprof_parse_guard differs from pprof_parse_guard_model (see coq/gen/GenGoroutinesWriter.v)")
     dfp = val("DFP").replace("%N", "")
     probes = parse_probes(dfp)
     if dfp.replace(" ", "") != "([],[])" and probes in (None, ([], [])):
